@@ -149,6 +149,7 @@ class Restrictions(CodegenModel):
         self.tokens = self.tokens or source.tokens
         self.format = self.format or source.format
         self.group = self.group or source.group
+        self.nillable = self.nillable or source.nillable
 
         if self.min_occurs is None and source.min_occurs is not None:
             self.min_occurs = source.min_occurs
